@@ -328,6 +328,23 @@ def run(chk, ctx):
         else:
             chk.ob('C05.W', cons, okk, why, site='pamqp/header.py')
     flag_bit_rule(chk, ctx)
+    # the content decoders get the payload as the peer sent it
+    from .c06 import payload_edits
+    keys_ = [k for k, _ in ctx.index_mapping()]
+    fk_ = F_.UnmarshalFacts(ctx, keys_[0] if keys_ else None)
+    pe_seen = set()
+    for r in fk_.rets:
+        kind_ = fk_.kind_of(r)
+        if kind_ in (None, 'other') or kind_ in pe_seen:
+            continue
+        pe_seen.add(kind_)
+        ed_ = payload_edits(fk_, r, fk_.data)
+        chk.ob('C05.F', '%s payload as sent' % kind_, not ed_,
+               'the payload decoded is a plain view of the buffer'
+               if not ed_ else 'the payload goes through %s before it is '
+               'decoded: well-formed frames whose bytes match the edit are '
+               'refused or altered' % '; '.join(sorted(set(ed_))[:2]),
+               site='pamqp/frame.py::unmarshal')
     chk.assume('values assigned by the library conversions (Decimal, '
                'float, datetime) are the reference values')
 
